@@ -1192,6 +1192,11 @@ sc_io_decode (sc_array_t *data, sc_array_t *out,
     unsigned char       uc = (unsigned char) compressed.array[i];
     encoded_size |= ((size_t) uc) << ((7 - i) * 8);
   }
+  if (encoded_size / 1032 > ocnt) {
+    /* a deflate stream expands at most by the factor 1032 */
+    SC_LERROR ("encoded size impossible for the amount of compressed data\n");
+    goto decode_error;
+  }
   if (out == NULL) {
     /* allow for in-place operation */
     out = data;
